@@ -16,8 +16,9 @@ type Profile struct {
 	MaxAdds   int
 	// percentages (swarm: each is switched off entirely in some runs)
 	PReorg, PSnapCrash, PCacheOps, PQuery int
-	NetFaults                            bool
-	QueryModes                           []string
+	PForged                               int
+	NetFaults                             bool
+	QueryModes                            []string
 }
 
 func rowsChoice(r *Rng) int {
@@ -46,7 +47,7 @@ func init() {
 			{Kind: "mappartial", TotalRows: -1, DetMaps: r.Bool()}, mapNode("mappartial", r)}
 		return ns
 	}
-	reg(&Profile{Name: "c01", Property: "C01", Oracles: []string{"roots"},
+	reg(&Profile{Name: "c01", PForged: 10, Property: "C01", Oracles: []string{"roots"},
 		Nodes: func(r *Rng) []NodeCfg {
 			ns := allForests(r)
 			ns = append(ns, NodeCfg{Kind: "pollard", Relay: "rebatch", NoUndo: true},
@@ -57,10 +58,10 @@ func init() {
 			return ns
 		},
 		MaxBlocks: 40, MaxAdds: 64, PReorg: 6, PSnapCrash: 0, NetFaults: true})
-	reg(&Profile{Name: "c02", Property: "C02", Oracles: []string{"roots", "prove"},
-		Nodes: func(r *Rng) []NodeCfg { return allForests(r) },
+	reg(&Profile{Name: "c02", PForged: 15, Property: "C02", Oracles: []string{"roots", "prove"},
+		Nodes:     func(r *Rng) []NodeCfg { return allForests(r) },
 		MaxBlocks: 30, MaxAdds: 48, PReorg: 8, PSnapCrash: 4, PCacheOps: 6, NetFaults: true})
-	reg(&Profile{Name: "c05", Property: "C05", Oracles: []string{"roots"},
+	reg(&Profile{Name: "c05", PForged: 15, Property: "C05", Oracles: []string{"roots"},
 		Nodes: func(r *Rng) []NodeCfg {
 			return []NodeCfg{{Kind: "stump", Relay: "reenc", NoUndo: true}, {Kind: "pollard", Relay: "reenc", NoUndo: true},
 				{Kind: "mapfull", TotalRows: -1, Relay: "reenc", NoUndo: true, DetMaps: r.Bool()},
@@ -70,7 +71,7 @@ func init() {
 				{Kind: "mappartial", TotalRows: []int{0, 0, 1 + r.Intn(8)}[r.Intn(3)], Relay: "reenc", NoUndo: true}}
 		},
 		MaxBlocks: 30, MaxAdds: 48, PReorg: 3, NetFaults: true})
-	reg(&Profile{Name: "c06", Property: "C06", Oracles: []string{"roots", "lookup", "prove", "provable-set", "partial"},
+	reg(&Profile{Name: "c06", PForged: 10, Property: "C06", Oracles: []string{"roots", "lookup", "prove", "provable-set", "partial"},
 		Nodes: func(r *Rng) []NodeCfg {
 			return []NodeCfg{{Kind: "pollard"}, {Kind: "mapfull", TotalRows: -1, DetMaps: r.Bool()}, {Kind: "mapfull", TotalRows: 0},
 				mapNode("mapfull", r), {Kind: "mappartial", TotalRows: -1}, mapNode("mappartial", r)}
@@ -84,9 +85,9 @@ func init() {
 	reg(&Profile{Name: "c08", Property: "C08", Oracles: []string{"roots", "light"},
 		Nodes: lightNodes, MaxBlocks: 40, MaxAdds: 40, PReorg: 35, PSnapCrash: 3, NetFaults: true})
 	reg(&Profile{Name: "c11", Property: "C11", Oracles: []string{"roots", "updatedata"},
-		Nodes: func(r *Rng) []NodeCfg { return []NodeCfg{{Kind: "stump"}, {Kind: "stump"}} },
+		Nodes:     func(r *Rng) []NodeCfg { return []NodeCfg{{Kind: "stump"}, {Kind: "stump"}} },
 		MaxBlocks: 40, MaxAdds: 64, PReorg: 10, NetFaults: true})
-	reg(&Profile{Name: "c09", Property: "C09", Oracles: []string{"roots", "partial"},
+	reg(&Profile{Name: "c09", PForged: 25, Property: "C09", Oracles: []string{"roots", "partial"},
 		Nodes: func(r *Rng) []NodeCfg {
 			ns := []NodeCfg{{Kind: "mappartial", TotalRows: -1, DetMaps: r.Bool()}, {Kind: "mappartial", TotalRows: 0, DetMaps: r.Bool()}, mapNode("mappartial", r)}
 			if r.Pct(60) {
@@ -95,25 +96,25 @@ func init() {
 			return ns
 		},
 		MaxBlocks: 30, MaxAdds: 40, PReorg: 15, PCacheOps: 40, NetFaults: true})
-	reg(&Profile{Name: "c10", Property: "C10", Oracles: []string{"roots", "lookup"},
+	reg(&Profile{Name: "c10", PForged: 20, Property: "C10", Oracles: []string{"roots", "lookup"},
 		Nodes: func(r *Rng) []NodeCfg {
 			return []NodeCfg{{Kind: "pollard"}, {Kind: "mapfull", TotalRows: -1, DetMaps: r.Bool()}, {Kind: "mapfull", TotalRows: 0},
 				mapNode("mapfull", r), {Kind: "mappartial", TotalRows: -1}, mapNode("mappartial", r)}
 		},
 		MaxBlocks: 25, MaxAdds: 32, PReorg: 15, PSnapCrash: 6, PCacheOps: 10, NetFaults: true})
-	reg(&Profile{Name: "c13", Property: "C13", Oracles: []string{"roots", "lookup", "prove", "partial"},
+	reg(&Profile{Name: "c13", PForged: 10, Property: "C13", Oracles: []string{"roots", "lookup", "prove", "partial"},
 		Nodes: func(r *Rng) []NodeCfg {
 			return []NodeCfg{{Kind: "pollard"}, {Kind: "mapfull", TotalRows: -1, DetMaps: true}, {Kind: "mapfull", TotalRows: 0, DetMaps: r.Bool()},
 				mapNode("mapfull", r), {Kind: "mappartial", TotalRows: -1, DetMaps: true}, mapNode("mappartial", r)}
 		},
 		MaxBlocks: 25, MaxAdds: 32, PReorg: 12, PSnapCrash: 35, PCacheOps: 8, NetFaults: true})
-	reg(&Profile{Name: "c14", Property: "C14", Oracles: []string{"roots", "c14proto"},
+	reg(&Profile{Name: "c14", PForged: 15, Property: "C14", Oracles: []string{"roots", "c14proto"},
 		Nodes: func(r *Rng) []NodeCfg {
 			return []NodeCfg{{Kind: "mappartial", TotalRows: -1, DetMaps: r.Bool()}, {Kind: "mappartial", TotalRows: 0}, mapNode("mappartial", r), {Kind: "stump"}}
 		},
 		MaxBlocks: 25, MaxAdds: 32, PReorg: 8, PCacheOps: 25, PQuery: 60, NetFaults: true,
 		QueryModes: []string{"addproof", "subset", "missing", "pmissing"}})
-	reg(&Profile{Name: "c17", Property: "C17", Oracles: []string{"roots", "prove", "lookup", "light", "updatedata", "partial", "aliasing", "c14proto"},
+	reg(&Profile{Name: "c17", PForged: 15, Property: "C17", Oracles: []string{"roots", "prove", "lookup", "light", "updatedata", "partial", "aliasing", "c14proto"},
 		Nodes: func(r *Rng) []NodeCfg {
 			return []NodeCfg{{Kind: "stump"}, {Kind: "light"}, {Kind: "pollard"}, {Kind: "mapfull", TotalRows: -1}, mapNode("mapfull", r),
 				{Kind: "mappartial", TotalRows: -1}, mapNode("mappartial", r), {Kind: "stump", Relay: "reenc", NoUndo: true}}
@@ -159,6 +160,9 @@ func Generate(p *Profile, seed uint64) *Scenario {
 	}
 	if sw.Pct(20) {
 		pCache = 0
+	}
+	if p.PForged > 0 && sw.Pct(60) {
+		sc.Forged = p.PForged
 	}
 	faults := p.NetFaults && sw.Pct(70)
 	dropP, dupP, slowP := 0, 0, 0
